@@ -173,6 +173,9 @@ pub mod node;
 #[cfg(fuzzing)]
 pub mod fuzzing;
 
+#[cfg(just_verif)]
+pub mod verif;
+
 // Used by Janus, https://github.com/casey/janus, a tool
 // that analyses all public justfiles on GitHub to avoid
 // breaking changes.
